@@ -63,9 +63,13 @@ class Gen:
         if self.cls == "closed-mixed" and not getattr(self, "_root", False):
             allow_arith = False
         self._root = False
-        choices = ["bit", "bit", "cmp", "mux", "slice", "cat", "rep", "shr", "not"]
+        choices = ["bit", "bit", "cmp", "mux", "slice", "cat", "rep", "shr"]
         if allow_arith:
-            choices += ["arith", "arith", "arith", "shl"]
+            choices += ["arith", "arith", "arith", "shl", "not"]
+        elif (arith_ok and self.cls != "closed-mixed") or self.hostile:
+            # (closed-mixed: a ~ below a mixed-signedness operator ends up inside LiteX's $signed({1'd0, x}) wrapper, where
+            #  Verilog inverts at the operand's width and Migen at unbounded width - the intermediate-overflow class)
+            choices += ["not"]
         if len(pool) >= 2:
             choices.append("array")
         c = r.choice(choices)
@@ -110,6 +114,13 @@ class Gen:
             key = self.small_sig(pool)
             if key[0] == "const":
                 key = ["const", key[1] % n, None, None]
+            if self.cls == "closed-mixed" and r.random() < 0.75:
+                # mostly same-signedness elements: a mixed Array whose widest element is unsigned is the known
+                # migen value_bits_sign finding, which would end the comparison of this design at its first use
+                upool = [i for i in pool if not self.sigs[i]["s"]]
+                els = [(["sig", r.choice(upool)] if upool and r.random() < 0.75 else ["const", r.getrandbits(r.choice([1, 3, 8])), None, None])
+                       for _ in range(n)]
+                return ["array", els, key]
             return ["array", [self.leaf(pool) for _ in range(n)], key]
         raise ValueError(c)
 
@@ -189,13 +200,22 @@ class Gen:
             depth = r.choice([2, 4, 8, 16])
             init = r.choice([None, "full", "short"])
             ports = []
+            # (ports of one memory in different domains, and NO_CHANGE ports with lane enables, are known findings that end the
+            #  comparison of the design early: drawn, but not often)
+            mdom = "b" if two_domains and r.random() < 0.35 else "sys"
             for pi in range(r.randint(1, 2)):
                 wr = r.random() < 0.7
                 gran = r.choice([0, 0, 4, width]) if wr and width % 4 == 0 else 0
                 if gran and width % gran:
                     gran = 0
-                ports.append({"we": wr, "gran": gran, "mode": r.choice(["wf", "rf", "nc"]) if wr else r.choice(["wf", "rf"]),
-                              "async": r.random() < 0.2, "re": r.random() < 0.3, "dom": "b" if two_domains and r.random() < 0.3 else "sys",
+                mode = r.choice(["wf", "rf", "nc"]) if wr else r.choice(["wf", "rf"])
+                if mode == "nc" and gran not in (0, width) and r.random() < 0.7:
+                    gran = 0
+                pdom = mdom
+                if two_domains and r.random() < 0.15:
+                    pdom = "sys" if mdom == "b" else "b"
+                ports.append({"we": wr, "gran": gran, "mode": mode,
+                              "async": r.random() < 0.2, "re": r.random() < 0.3, "dom": pdom,
                               "adr": self.expr(pool, 1, False), "dat_w": self.expr(pool, 1, True), "wen": self.expr(pool, 1, False),
                               "ren": self.expr(pool, 1, False)})
             spec["mems"].append({"width": width, "depth": depth, "init": init, "ports": ports,
